@@ -1,6 +1,6 @@
 ------------------------------ MODULE MC_Channel ------------------------------
 EXTENDS Channel, Json
-MsSet == {-3, -2, -1, 1, 2, 5}
-MsSmall == {-2, -1, 1, 3}
+MsSet == {-3, -2, -1, 0, 1, 2, 5}
+MsSmall == {-2, -1, 0, 1, 3}
 Emit == Len(ops) > 0 => PrintT(<<"EV", ToJson([N |-> N, npol |-> npol, X0 |-> X0, X |-> X, loss |-> loss, ops |-> ops])>>)
 =============================================================================
